@@ -235,6 +235,9 @@ impl Mon {
             if let Ok(px) = crate::refm::ref_price(bq, &ors, info.now) {
                 let cached = w(&bq.cache.last_oracle_price);
                 self.r.count("C20.cached_venue_prices_compared");
+                if rate < one() {
+                    self.r.count("C20.cached_venue_prices_compared_at_rate_below_one");
+                }
                 let bound = &px.spot + &px.e * ri(4) + ulp() * ri(16);
                 if cached > bound {
                     self.r.violate("C20", &format!("C20/{}/cached-price-exceeds-oracle-price-times-exact-exchange-rate", name), format!("bank {}: cached unbiased price {} but oracle price x exact venue rate is {} (+-{})", bk, show(&cached), show(&px.spot), show(&px.e)));
